@@ -14,4 +14,5 @@ INVARIANT AxisCycles
 INVARIANT DistnOK
 INVARIANT KLNonNeg
 INVARIANT FlatOK
+PROPERTY FreshLeaves
 CHECK_DEADLOCK FALSE
